@@ -19,8 +19,8 @@ CHECKS = {
          "L1 process unit with a fake inbox: callers do not run concurrently with the worker (histories, not schedules).", "symbolic execution of go/ssa + z3, L1 process-unit harness", "§5 C07"),
  "C13": ("Same L1 unit with middleware chains of length 0..2 of recording middlewares: at every entry of Receive (Initialized, Started, Stopped, user; spawn, stop, poison, crash, restart and max-restarts paths) the chain is active in full and outermost-first and every middleware saw the delivered message.",
          "L1 process unit with a fake inbox.", "symbolic execution of go/ssa + z3, L1 process-unit harness", "§5 C13"),
- "C14": ("One-step induction over the real RingBuffer code: from an arbitrary state satisfying the representation invariant (capacity 1..6, thorough 1..12; contents, head, length, pushed value and n symbolic 64-bit) one Push / Pop / PopN / Len preserves the invariant and transforms the abstract queue exactly as a FIFO does; New establishes the invariant (base case). Covers histories of any length within the capacity bound.",
-         "Sequential semantics under the buffer's mutex; linearizability under concurrent callers relies on every method holding that mutex for its whole body (not re-checked here).", "symbolic execution of go/ssa + z3, inductive step harnesses", "§5 C14"),
+ "C14": ("One-step induction over the real RingBuffer code: from an arbitrary state satisfying the representation invariant (capacity 1..6, thorough 1..12; contents, head, length, pushed value and n symbolic 64-bit) one Push / Pop / PopN / Len preserves the invariant and transforms the abstract queue exactly as a FIFO does; New establishes the invariant (base case). Plus bounded operation sequences from New(1..3) against a slice model (4, thorough 6 operations), plus the concurrent clause: 2 goroutines x 1 operation (thorough also 2x2 and 3x1) on a shared ring under every interleaving within 2 preemptions, checked for the existence of a linearisation consistent with real-time order and for data races (happens-before detector over the repository's plain and atomic accesses).",
+         "The inductive step covers sequential histories of any length within the capacity bound; the concurrent clause is bounded by goroutines, operations and preemptions. A data race reported by the executor's detector cannot be confirmed by native replay and is trusted.", "symbolic execution of go/ssa + z3: inductive step harnesses, bounded sequences, bounded-preemption schedules with linearizability and race oracle", "§5 C14"),
 }
 
 NA = {
@@ -33,7 +33,7 @@ CHECKS.update({
  "C01": ("Bounded symbolic execution of the real Inbox.Send/schedule/process/run/Start, RingBuffer and goscheduler with sender goroutines and a recording Processer, over every interleaving at synchronisation granularity within a preemption bound of 2 (2 senders x 2 messages quick, 3 x 2 thorough; initial ring size 1..2 so growth, wrap and batch splits occur; Start before or racing with the senders), plus the real process with its real Inbox while Spawn races with two senders. Oracle: every accepted message reaches Receive/Invoke exactly once, per-sender order kept, payload (symbolic) and sender preserved.",
          "Interleavings are enumerated by the executor's scheduler decisions (context bounding), data is symbolic; beyond the preemption/thread/message bounds nothing is claimed.", "symbolic execution of go/ssa with a bounded-preemption scheduler + z3", "§5 C01"),
  "C02": ("Same threaded units as C01; the recording receiver yields in the middle of every Invoke/Receive and flags any second entry while one is active (user messages, Initialized/Started on the spawner goroutine, Stopped and the restart on the worker goroutine after a symbolic crash).",
-         "Non-overlap is checked; the happens-before edge between consecutive Receives is not separately checked (the executor's race detector is not enabled here). Preemption bound 2.", "symbolic execution of go/ssa with a bounded-preemption scheduler + z3", "§5 C02"),
+         "Non-overlap and happens-before are both checked: the receiver declares an unsynchronised write to its state at every entry, and the executor's vector-clock race detector (release/acquire edges from the atomics, mutexes, go statements and channel operations the code actually performs) must order every pair of entries and finds unordered plain/atomic conflicts in the repository's own accesses. A reported race cannot be confirmed by native replay and is trusted. Preemption bound 2.", "symbolic execution of go/ssa with a bounded-preemption scheduler + z3", "§5 C02"),
  "C03": ("Same inbox unit as C01: at quiescence (every goroutine finished, nobody sends any more) all accepted messages were handled, the ring is empty and the status is idle, for every interleaving of Send (push, try-schedule) with the worker's last empty pop, its running->idle transition, its re-check and with Start, within preemption bound 2.",
          "Bounds: 2 (thorough 3) senders x 2 messages, ring size 1..2, preemption bound 2.", "symbolic execution of go/ssa with a bounded-preemption scheduler + z3", "§5 C03"),
  "C08": ("Threaded execution of the real process/Context/SafeMap/Inbox code on a supervision tree (depth 1, fan-out 2): each node checks, at the instant it handles Stopped, that all its descendants have handled Stopped and are unregistered; the stop context's cancellation instant is checked the same way; Children()/Parent() are probed after a child stopped on its own. Shutdown by Stop or Poison, optionally racing with a third party poisoning a child. Two reproduced defects are listed as known findings.",
